@@ -110,6 +110,11 @@ def entails(ex, s, cond):
     c = concrete_bool(cond)
     if c is not None:
         return c
+    lim = getattr(ex.spec, 'max_solver_checks', None)
+    if lim is not None and ex.solver_checks > lim:
+        # a sidecar may bound the work of a structured-input contract: when the code under analysis no longer follows
+        # the structure (e.g. after a change in an inlined callee) every step degenerates into solver queries
+        raise Unsupported(f'more than {lim} solver checks on a structured-input contract (structure lost)')
     sol = z3.Solver()
     sol.set('timeout', 1500)
     sol.add(*relevant(s.pc, cond))
